@@ -21,6 +21,10 @@ func specName(subs [][]jobSpec) string {
 	for _, s := range subs {
 		var js []string
 		for _, j := range s {
+			if j.kind == "" {
+				js = append(js, j.via)
+				continue
+			}
 			js = append(js, j.kind[:2]+"-"+j.via[:2])
 		}
 		parts = append(parts, strings.Join(js, "."))
@@ -51,6 +55,12 @@ func poolScenarioP(cfg scenlib.PoolCfg, subs [][]jobSpec, closeAtEnd bool, preal
 			all = append(all, jinfo{j, id})
 		}
 	}
+	replacesHandler := false
+	for _, j := range all {
+		if j.spec.via == "sethandler" {
+			replacesHandler = true
+		}
+	}
 	return &vsched.Scenario{
 		Name:     fmt.Sprintf("%s/%s/%s/prealloc%d", fam, cfg, specName(subs), prealloc),
 		Bound:    bound,
@@ -60,7 +70,11 @@ func poolScenarioP(cfg scenlib.PoolCfg, subs [][]jobSpec, closeAtEnd bool, preal
 		Horizon:  int64(300 * time.Millisecond),
 		Body: func() {
 			g = &scenlib.Gauge{}
-			p := scenlib.NewPool(cfg, func(v interface{}) { vsched.Event("panic-handler", fmt.Sprint(v)) })
+			handler := func(v interface{}) { vsched.Event("panic-handler", fmt.Sprint(v)) }
+			if replacesHandler {
+				handler = func(v interface{}) { vsched.Event("panic-handler-replaced-one", fmt.Sprint(v)) }
+			}
+			p := scenlib.NewPool(cfg, handler)
 			next := 0
 			done := make(chan int, len(subs))
 			for si, script := range subs {
@@ -72,6 +86,9 @@ func poolScenarioP(cfg scenlib.PoolCfg, subs [][]jobSpec, closeAtEnd bool, preal
 						jid := base + k + 1
 						job := scenlib.Job(jid, js.kind, g)
 						switch js.via {
+						case "sethandler": // replace the panic handler while workers exist: later panics go to the new one
+							p.SetPanicHandler(func(v interface{}) { vsched.Event("panic-handler", fmt.Sprint(v)) })
+							vsched.Event("sched", jid, "handler-replaced")
 						case "late": // submitted after the running jobs have outlasted the jam duration
 							time.Sleep(4 * time.Millisecond)
 							vsched.Event("sched", jid, scenlib.SchedErr(p.Schedule(job)))
@@ -116,6 +133,9 @@ func poolScenarioP(cfg scenlib.PoolCfg, subs [][]jobSpec, closeAtEnd bool, preal
 					}
 				}
 				runs := e1.Count(r, "start", j.id)
+				if j.spec.via == "sethandler" {
+					continue
+				}
 				switch {
 				case runs > 1:
 					fs = append(fs, e1.Fail("C09|"+fam+"|ran-twice", "job %d (%s via %s) ran %d times", j.id, j.spec.kind, j.spec.via, runs))
@@ -200,6 +220,11 @@ func scenarios(tier string) []*vsched.Scenario {
 			poolScenario(cfgs[1], [][]jobSpec{{js("timed", S), js("timed-panic", S), js("plain", T)}}, false, 1, false),
 			poolScenario(cfgs[3], [][]jobSpec{{js("timed-panic", S), js("timed", S), js("plain", S)}}, false, 2, true),
 			poolScenarioP(scenlib.PoolCfg{Cap: 2, Buf: 0, Max: 1, StandBy: 0, Batch: 1}, [][]jobSpec{{js("timed", S), js("timed", S)}}, false, 1, 1, false))
+		// the panic handler replaced while a stand-by worker already exists; a closed pool whose queue stays open
+		out = append(out,
+			poolScenario(scenlib.PoolCfg{Cap: 1, Buf: 1, Max: 1, StandBy: 1, Batch: 1}, [][]jobSpec{{js("timed", S), js("", "sethandler"), js("panic", "late"), js("plain", S)}}, false, 1, false),
+			poolScenario(scenlib.PoolCfg{Cap: 1, Buf: 1, Max: 1, StandBy: 1, Batch: 1, KeepQueue: true}, scripts[1], true, 1, false),
+			poolScenario(scenlib.PoolCfg{Cap: 1, Buf: 2, Max: 2, StandBy: 0, Batch: 1, KeepQueue: true}, scripts[6], true, 2, true))
 		// configured through a settings struct / SetDefaultWorkerPoolSettings + SetJobQueue instead of the individual setters
 		out = append(out,
 			poolScenario(scenlib.PoolCfg{Cap: 1, Buf: 1, Max: 1, StandBy: 1, Batch: 1, Via: "settings"}, scripts[2], false, 1, false),
